@@ -46,375 +46,29 @@
 //   selfdiag k k2 f      M.diag_vector(k) = F(M.diag_vector(k2)) with F(w) =
 //                        k2: 2.0*w   cp: w   sum: 2.0*w + w   rev: 2.0*w(stride(len-1,0,-1))
 //                        dense: D.diag_vector(k) = F(D.diag_vector(k2))
+//   compound operators (all eight; `M OP= rhs` is `M = noalias(M) OP rhs` in SpecialMatrix.h):
+//   cmp tv a b op form src c d
+//                        V = M.submatrix_on_diagonal(a,b) (tv = v) or M.submatrix_on_diagonal(a,b).T() (tv = t, an lvalue of the
+//                        transposed engine on M's storage); op = add | sub | mul | div for += -= *= /=;
+//                        form = c : V OP= 2.0 (scalar operators)           D : V OP= Dn (dense Matrix)
+//                               cp: V OP= Y     k2: V OP= 2.0*Y     T: V OP= Y.T()     mixT: V OP= 2.0*Y + Y.T()
+//                        with Y = S.submatrix_on_diagonal(c,d) (tv = v) or its .T() (tv = t), S = M (src = m: the right-hand
+//                        side reads the target's own storage) or the second matrix N (src = n); src c d are `- 0 0` for c, D.
+//                        Raw fills: M k+1, N 1001+k, Dn(i,j) = 100*i+j+1; for op = div: M 8*(k+1), N {1,2,4}[k%3],
+//                        Dn(i,j) = {1,2,4}[(i+2j)%3].
+//                        Result: alias=<rhs.is_aliased(V.data_range)> raw=<raw M> view=<dense view of M>
+//                        (`oob` / `mismatch` if the library throws index_out_of_bounds / size_mismatch)
+//   active special matrices, statement executed while recording; A (raw k+1) and B (raw 1001+k) are ACTIVE matrices of the
+//   engine in two Storage objects, x an active scalar (7.0):
+//   act tv a b kind      AV = A.submatrix_on_diagonal(a,b) (tv = v) or its .T() (tv = t); BV the same view of B;
+//                        kind = x : AV = x      c : AV = 5.0      cp: AV = BV      k2: AV = 2.0*BV      T: AV = BV.T()
+//                               mixT: AV = 2.0*BV + BV.T()
+//                        Result: raw=<raw A> view=<dense view of A> tape=<statements recorded by the assignment>, each statement
+//                        `a<k>:<m>*<g>+<m>*<g>...` — left-hand side = raw element k of A's storage (gradient index relative
+//                        to A.gradient_index()), operations multiplier * (x | a<k> | b<k>), statements separated by `;`
 //   dmat s               (BandEngine_ROW_MAJOR 0 0 only) D = v.diag_matrix() for the n-element view v of stride s of a
 //                        vector holding 1,2,3,...: offset(), const reads of D, Matrix(D), Matrix(D.T())
-#include "spy.h"
-#include <type_traits>
-#include <utility>
-#include <cmath>
-using namespace adept;
-using namespace adept::internal;
-
-static std::string num(double v) {
-  char buf[64];
-  if (v == std::floor(v) && std::fabs(v) < 1e15) snprintf(buf, sizeof buf, "%lld", (long long)v);
-  else snprintf(buf, sizeof buf, "%.17g", v);
-  return buf;
-}
-
-template <class E> struct passive_lvalue_ok {
-  typedef decltype(std::declval<E&>().template get_reference<false, Real>(0, 0, 0, 0, 0, (Real*)0)) R;
-  static const bool value = std::is_same<R, Real&>::value;
-};
-
-struct RefSpy : public ActiveReference<Real> {   // ActiveReference::lvalue() is protected
-  RefSpy(const ActiveReference<Real>& r) : ActiveReference<Real>(r) {}
-  Real* addr() { return &lvalue(); }
-};
-
-template <class SM> static Index raw_size(const SM& M) {
-  const Real *b, *e;
-  M.data_range(b, e);
-  return (Index)(e - b) + 1;
-}
-template <class SM> static void fill_raw(SM& M, double base, double step) {
-  Index sz = raw_size(M);
-  for (Index k = 0; k < sz; ++k) M.data()[k] = base + step * k;
-}
-template <class SM> static std::vector<double> view(const SM& M) {
-  Index n = M.dimension();
-  std::vector<double> v;
-  for (Index i = 0; i < n; ++i) for (Index j = 0; j < n; ++j) v.push_back(M(i, j));
-  return v;
-}
-template <class SM> static std::vector<double> raw(const SM& M) {
-  Index sz = raw_size(M);
-  return std::vector<double>(M.data(), M.data() + sz);
-}
-static std::string list(const std::vector<double>& v) {
-  std::string s;
-  for (size_t k = 0; k < v.size(); ++k) { if (k) s += ","; s += num(v[k]); }
-  return s.empty() ? "-" : s;
-}
-static std::string mat(const Matrix& D) {
-  std::vector<double> v;
-  for (Index i = 0; i < D.dimension(0); ++i) for (Index j = 0; j < D.dimension(1); ++j) v.push_back(D(i, j));
-  return list(v);
-}
-static std::string changes(const std::vector<double>& v0, const std::vector<double>& v1, Index n,
-                           const std::vector<double>& r0, const std::vector<double>& r1) {
-  std::ostringstream os;
-  os << "chg=";
-  bool first = true;
-  for (size_t k = 0; k < v0.size(); ++k)
-    if (v0[k] != v1[k]) { os << (first ? "" : ",") << k / n << ":" << k % n << ":" << num(v1[k]); first = false; }
-  if (first) os << "-";
-  os << " raw=";
-  first = true;
-  for (size_t k = 0; k < r0.size(); ++k)
-    if (r0[k] != r1[k]) { os << (first ? "" : ",") << k << ":" << num(r1[k]); first = false; }
-  if (first) os << "-";
-  return os.str();
-}
-
-// ---- element lvalue access, passive (only where it compiles) and active
-template <class SM, bool OK> struct PassiveLv {
-  static bool ptr(SM& M, Index i, Index j, long& off) {
-    try { Real& r = M(i, j); off = &r - M.data(); return true; } catch (const index_out_of_bounds&) { return false; }
-  }
-  static bool write(SM& M, Index i, Index j, double v) {
-    try { M(i, j) = v; return true; } catch (const index_out_of_bounds&) { return false; }
-  }
-};
-template <class SM> struct PassiveLv<SM, false> {
-  static bool ptr(SM&, Index, Index, long& off) { off = -999999; return true; }
-  static bool write(SM&, Index, Index, double) { return false; }
-};
-
-template <class E> struct Ops {
-  typedef SpecialMatrix<Real, E, false> SM;
-  typedef SpecialMatrix<Real, E, true> ASM;
-  typedef SpecialMatrix<Real, typename E::transpose_engine, false> TSM;
-  static const bool LV = passive_lvalue_ok<E>::value;
-
-  static std::string run(const std::vector<std::string>& w) {
-    const std::string& op = w[0];
-    Index n = atoi(w[4].c_str());
-    if (n < 1 || n > 64) return "bad-op";
-    size_t na = w.size() - 5;
-    std::ostringstream os;
-    if (op == "caps" && na == 0) { os << "lvalue=" << (LV ? 1 : 0); return os.str(); }
-    SM M(n); fill_raw(M, 1, 1);
-    if (op == "info" && na == 0) {
-      os << "offset=" << M.offset() << " size=" << raw_size(M) << " contiguous=" << (M.is_contiguous() ? 1 : 0);
-      return os.str();
-    }
-    if (op == "get" && na == 0) return list(view(M));
-    if (op == "ptr" && na == 1 && (w[5] == "p" || w[5] == "a")) {
-      bool act = w[5] == "a";
-      if (!act && !LV) return "unsupported";
-      ASM A;
-      if (act) { A.resize(n); }
-      for (Index i = 0; i < n; ++i) for (Index j = 0; j < n; ++j) {
-        if (i || j) os << ",";
-        if (!act) {
-          long off;
-          if (PassiveLv<SM, LV>::ptr(M, i, j, off)) os << off; else os << "z";
-        } else {
-          try {
-            RefSpy r(A(i, j));
-            long off = r.addr() - A.data();
-            long goff = (long)r.gradient_index() - (long)A.gradient_index();
-            if (off != goff) os << off << "!" << goff; else os << off;
-          } catch (const index_out_of_bounds&) { os << "z"; }
-        }
-      }
-      return os.str();
-    }
-    if (op == "wr" && na == 3 && (w[5] == "p" || w[5] == "a")) {
-      bool act = w[5] == "a";
-      Index i = atoi(w[6].c_str()), j = atoi(w[7].c_str());
-      if (i < 0 || j < 0 || i >= n || j >= n) return "bad-op";
-      if (!act) {
-        if (!LV) return "unsupported";
-        std::vector<double> v0 = view(M), r0 = raw(M);
-        if (!PassiveLv<SM, LV>::write(M, i, j, 1000.0)) return "oob";
-        return changes(v0, view(M), n, r0, raw(M));
-      } else {
-        ASM A(n); fill_raw(A, 1, 1);
-        SM P(A.data(), n);   // passive view of the same storage (A.inactive_link() does not compile: protected members)
-        std::vector<double> v0 = view(P), r0 = raw(P);
-        try { A(i, j) = 1000.0; } catch (const index_out_of_bounds&) { return "oob"; }
-        return changes(v0, view(P), n, r0, raw(P));
-      }
-    }
-    if (op == "dense" && na == 0) { Matrix D(M); return mat(D); }
-    if (op == "fromdense" && na == 1 && (w[5] == "s" || w[5] == "a")) {
-      Matrix D(n, n);
-      for (Index i = 0; i < n; ++i) for (Index j = 0; j < n; ++j)
-        D(i, j) = w[5] == "s" ? 100.0 * std::min(i, j) + std::max(i, j) + 1 : 100.0 * i + j + 1;
-      SM S(n); fill_raw(S, -1, 0);
-      S = D;
-      os << "raw=" << list(raw(S)) << " view=" << list(view(S));
-      return os.str();
-    }
-    if (op == "scalar" && na == 0) {
-      SM S(n); fill_raw(S, -1, 0);
-      S = 5.0;
-      os << "raw=" << list(raw(S)) << " view=" << list(view(S));
-      return os.str();
-    }
-    if (op == "T" && na == 0) {
-      Matrix D(M.T());
-      const TSM Tm = M.T();
-      Matrix D2(M.T().T());
-      os << "conv=" << mat(D) << " get=" << list(view(Tm)) << " convTT=" << mat(D2);
-      return os.str();
-    }
-    if (op == "diag" && na == 1) {
-      Index k = atoi(w[5].c_str());
-      if (k <= -n || k >= n) return "bad-op";
-      try {
-        Vector d = M.diag_vector(k);
-        std::vector<double> v;
-        for (Index t = 0; t < d.size(); ++t) v.push_back(d(t));
-        return list(v);
-      } catch (const index_out_of_bounds&) { return "oob"; }
-    }
-    if (op == "wrdiag" && na == 2) {
-      Index k = atoi(w[5].c_str()), t = atoi(w[6].c_str());
-      Index len = n - (k < 0 ? -k : k);
-      if (k <= -n || k >= n || t < 0 || t >= len) return "bad-op";
-      std::vector<double> v0 = view(M), r0 = raw(M);
-      try { Vector d = M.diag_vector(k); d(t) = 1000.0; } catch (const index_out_of_bounds&) { return "oob"; }
-      return changes(v0, view(M), n, r0, raw(M));
-    }
-    if (op == "sub" && na == 2) {
-      Index a = atoi(w[5].c_str()), b = atoi(w[6].c_str());
-      try {
-        SM X0 = M.submatrix_on_diagonal(a, b);
-        const SM X(X0);
-        Matrix D(X);
-        Matrix Dt(X0.T());
-        os << "get=" << list(view(X)) << " conv=" << mat(D) << " convT=" << mat(Dt);
-        return os.str();
-      } catch (const index_out_of_bounds&) { return "oob"; }
-    }
-    if (op == "sinfo" || op == "sdiag" || op == "sTdiag" || op == "swrdiag" || op == "swr" || op == "sT" || op == "ssub" ||
-        op == "sassign") {
-      if (na < 2) return "bad-op";
-      Index a = atoi(w[5].c_str()), b = atoi(w[6].c_str());
-      try {
-        if (op == "swr" && na == 5 && w[7] == "a") {
-          Index i = atoi(w[8].c_str()), j = atoi(w[9].c_str());
-          ASM A(n); fill_raw(A, 1, 1);
-          SM P(A.data(), n);
-          ASM XA = A.submatrix_on_diagonal(a, b);
-          if (i < 0 || j < 0 || i >= XA.dimension() || j >= XA.dimension()) return "bad-op";
-          std::vector<double> v0 = view(P), r0 = raw(P);
-          XA(i, j) = 1000.0;
-          return changes(v0, view(P), n, r0, raw(P));
-        }
-        SM X = M.submatrix_on_diagonal(a, b);
-        Index m = X.dimension();
-        if (op == "sinfo" && na == 2) {
-          os << "offset=" << X.offset() << " size=" << raw_size(X) << " contiguous=" << (X.is_contiguous() ? 1 : 0);
-          return os.str();
-        }
-        if ((op == "sdiag" || op == "sTdiag") && na == 3) {
-          Index k = atoi(w[7].c_str());
-          if (k <= -m || k >= m) return "bad-op";
-          std::vector<double> v;
-          if (op == "sdiag") { Vector d = X.diag_vector(k); for (Index t = 0; t < d.size(); ++t) v.push_back(d(t)); }
-          else { TSM Xt = X.T(); Vector d = Xt.diag_vector(k); for (Index t = 0; t < d.size(); ++t) v.push_back(d(t)); }
-          return list(v);
-        }
-        if (op == "swrdiag" && na == 4) {
-          Index k = atoi(w[7].c_str()), t = atoi(w[8].c_str());
-          Index len = m - (k < 0 ? -k : k);
-          if (k <= -m || k >= m || t < 0 || t >= len) return "bad-op";
-          std::vector<double> v0 = view(M), r0 = raw(M);
-          Vector d = X.diag_vector(k);
-          d(t) = 1000.0;
-          return changes(v0, view(M), n, r0, raw(M));
-        }
-        if (op == "swr" && na == 5 && w[7] == "p") {
-          Index i = atoi(w[8].c_str()), j = atoi(w[9].c_str());
-          if (i < 0 || j < 0 || i >= m || j >= m) return "bad-op";
-          if (!LV) return "unsupported";
-          std::vector<double> v0 = view(M), r0 = raw(M);
-          if (!PassiveLv<SM, LV>::write(X, i, j, 1000.0)) return "oob";
-          return changes(v0, view(M), n, r0, raw(M));
-        }
-        if (op == "sT" && na == 2) {
-          Matrix D(X.T());
-          const TSM Tm = X.T();
-          Matrix D2(X.T().T());
-          os << "conv=" << mat(D) << " get=" << list(view(Tm)) << " convTT=" << mat(D2);
-          return os.str();
-        }
-        if (op == "ssub" && na == 4) {
-          Index a2 = atoi(w[7].c_str()), b2 = atoi(w[8].c_str());
-          SM Y0 = X.submatrix_on_diagonal(a2, b2);
-          const SM Y(Y0);
-          Matrix D(Y);
-          Matrix Dt(Y0.T());
-          os << "get=" << list(view(Y)) << " conv=" << mat(D) << " convT=" << mat(Dt);
-          return os.str();
-        }
-        if (op == "sassign" && na == 2) {
-          SM N2(n); fill_raw(N2, 1001, 1);
-          SM S(n); fill_raw(S, -1, 0);
-          S.submatrix_on_diagonal(a, b) = M.submatrix_on_diagonal(a, b) * 2.0 + N2.submatrix_on_diagonal(a, b).T();
-          os << "raw=" << list(raw(S)) << " view=" << list(view(S));
-          return os.str();
-        }
-        return "bad-op";
-      }
-      catch (const index_out_of_bounds&) { return "oob"; }
-    }
-    if (op == "selfsub" && na == 5) {
-      Index a = atoi(w[5].c_str()), b = atoi(w[6].c_str()), c = atoi(w[7].c_str()), d = atoi(w[8].c_str());
-      const std::string& f = w[9];
-      if (f != "k2" && f != "cp" && f != "sum" && f != "T" && f != "mixT") return "bad-op";
-      try {
-        SM X = M.submatrix_on_diagonal(a, b);
-        SM Y = M.submatrix_on_diagonal(c, d);
-        Matrix D(M);
-        const Real *pb, *pe;
-        X.data_range(pb, pe);
-        int al;
-        if (f == "k2") {
-          al = (2.0 * Y).is_aliased(pb, pe);
-          M.submatrix_on_diagonal(a, b) = 2.0 * M.submatrix_on_diagonal(c, d);
-          D(range(a, b), range(a, b)) = 2.0 * D(range(c, d), range(c, d));
-        } else if (f == "cp") {
-          al = Y.is_aliased(pb, pe);
-          M.submatrix_on_diagonal(a, b) = M.submatrix_on_diagonal(c, d);
-          D(range(a, b), range(a, b)) = D(range(c, d), range(c, d));
-        } else if (f == "sum") {
-          al = (2.0 * Y + Y).is_aliased(pb, pe);
-          M.submatrix_on_diagonal(a, b) = 2.0 * M.submatrix_on_diagonal(c, d) + M.submatrix_on_diagonal(c, d);
-          D(range(a, b), range(a, b)) = 2.0 * D(range(c, d), range(c, d)) + D(range(c, d), range(c, d));
-        } else if (f == "T") {
-          al = Y.T().is_aliased(pb, pe);
-          M.submatrix_on_diagonal(a, b) = M.submatrix_on_diagonal(c, d).T();
-          D(range(a, b), range(a, b)) = D(range(c, d), range(c, d)).T();
-        } else {
-          al = (2.0 * Y + Y.T()).is_aliased(pb, pe);
-          M.submatrix_on_diagonal(a, b) = 2.0 * M.submatrix_on_diagonal(c, d) + M.submatrix_on_diagonal(c, d).T();
-          D(range(a, b), range(a, b)) = 2.0 * D(range(c, d), range(c, d)) + D(range(c, d), range(c, d)).T();
-        }
-        os << "alias=" << al << " raw=" << list(raw(M)) << " view=" << list(view(M)) << " dense=" << mat(D);
-        return os.str();
-      }
-      catch (const index_out_of_bounds&) { return "oob"; }
-      catch (const size_mismatch&) { return "mismatch"; }
-    }
-    if ((op == "selfT" || op == "selfexpr") && na == 0) {
-      Matrix D(M);
-      const Real *pb, *pe;
-      M.data_range(pb, pe);
-      int al;
-      if (op == "selfT") { al = M.T().is_aliased(pb, pe); M = M.T(); D = D.T(); }
-      else { al = (2.0 * M + M).is_aliased(pb, pe); M = 2.0 * M + M; D = 2.0 * D + D; }
-      os << "alias=" << al << " raw=" << list(raw(M)) << " view=" << list(view(M)) << " dense=" << mat(D);
-      return os.str();
-    }
-    if (op == "selfdiag" && na == 3) {
-      Index k = atoi(w[5].c_str()), k2 = atoi(w[6].c_str());
-      const std::string& f = w[7];
-      if (k <= -n || k >= n || k2 <= -n || k2 >= n) return "bad-op";
-      if (f != "k2" && f != "cp" && f != "sum" && f != "rev") return "bad-op";
-      try {
-        Vector v = M.diag_vector(k);
-        Vector u = M.diag_vector(k2);
-        Matrix D(M);
-        const Real *pb, *pe;
-        v.data_range(pb, pe);
-        Index len = u.size();
-        int al;
-        if (f == "k2") {
-          al = (2.0 * u).is_aliased(pb, pe);
-          M.diag_vector(k) = 2.0 * M.diag_vector(k2);
-          D.diag_vector(k) = 2.0 * D.diag_vector(k2);
-        } else if (f == "cp") {
-          al = u.is_aliased(pb, pe);
-          M.diag_vector(k) = M.diag_vector(k2);
-          D.diag_vector(k) = D.diag_vector(k2);
-        } else if (f == "sum") {
-          al = (2.0 * u + u).is_aliased(pb, pe);
-          M.diag_vector(k) = 2.0 * M.diag_vector(k2) + M.diag_vector(k2);
-          D.diag_vector(k) = 2.0 * D.diag_vector(k2) + D.diag_vector(k2);
-        } else {
-          al = (2.0 * u(stride(len - 1, 0, -1))).is_aliased(pb, pe);
-          M.diag_vector(k) = 2.0 * M.diag_vector(k2)(stride(len - 1, 0, -1));
-          D.diag_vector(k) = 2.0 * D.diag_vector(k2)(stride(len - 1, 0, -1));
-        }
-        os << "alias=" << al << " raw=" << list(raw(M)) << " view=" << list(view(M)) << " dense=" << mat(D);
-        return os.str();
-      }
-      catch (const index_out_of_bounds&) { return "oob"; }
-      catch (const size_mismatch&) { return "mismatch"; }
-    }
-    SM N(n); fill_raw(N, 1001, 1);
-    if (op == "expr" && na == 0) { Matrix R; R = M * 2.0 + N; return mat(R); }
-    if (op == "exprT" && na == 0) { Matrix R; R = M * 2.0 + N.T(); return mat(R); }
-    if (op == "assign" && na == 0) {
-      SM S(n); fill_raw(S, -1, 0);
-      S = M * 2.0 + N;
-      os << "raw=" << list(raw(S)) << " view=" << list(view(S));
-      return os.str();
-    }
-    if (op == "assignT" && na == 0) {
-      SM S(n); fill_raw(S, -1, 0);
-      S = M * 2.0 + N.T();
-      os << "raw=" << list(raw(S)) << " view=" << list(view(S));
-      return os.str();
-    }
-    return "bad-op";
-  }
-};
+#include "drv_special_ops.h"
 
 static std::string run_dmat(const std::vector<std::string>& w) {
   if (w.size() != 6) return "bad-op";
@@ -433,34 +87,42 @@ static std::string run_dmat(const std::vector<std::string>& w) {
   return os.str();
 }
 
-template <MatrixStorageOrder Order> static std::string band(const std::vector<std::string>& w, int L, int U) {
-#define VERIF_BAND(l, u) if (L == l && U == u) return Ops<BandEngine<Order, l, u> >::run(w);
-  VERIF_BAND(0, 0) VERIF_BAND(1, 1) VERIF_BAND(2, 2) VERIF_BAND(0, 2) VERIF_BAND(2, 0) VERIF_BAND(3, 1) VERIF_BAND(1, 3) VERIF_BAND(4, 4)
-#undef VERIF_BAND
-  return "bad-op";
-}
+std::string verif_special_group_1(const std::vector<std::string>& w);
+std::string verif_special_group_2(const std::vector<std::string>& w);
+std::string verif_special_group_3(const std::vector<std::string>& w);
+std::string verif_special_group_4(const std::vector<std::string>& w);
+std::string verif_special_group_5(const std::vector<std::string>& w);
+std::string verif_special_group_6(const std::vector<std::string>& w);
+std::string verif_special_group_7(const std::vector<std::string>& w);
+std::string verif_special_group_8(const std::vector<std::string>& w);
+std::string verif_special_group_9(const std::vector<std::string>& w);
+std::string verif_special_group_10(const std::vector<std::string>& w);
+std::string verif_special_group_11(const std::vector<std::string>& w);
+std::string verif_special_group_12(const std::vector<std::string>& w);
+
+verif::SpyStack* g_stack = 0;
 
 static std::string dispatch(const std::vector<std::string>& w) {
   if (w.size() < 5) return "bad-op";
   const std::string& e = w[1];
   int L = atoi(w[2].c_str()), U = atoi(w[3].c_str());
   if (w[0] == "dmat") return (e == "BandEngine_ROW_MAJOR" && L == 0 && U == 0) ? run_dmat(w) : std::string("bad-op");
-  if (e == "BandEngine_ROW_MAJOR") return band<ROW_MAJOR>(w, L, U);
-  if (e == "BandEngine_COL_MAJOR") return band<COL_MAJOR>(w, L, U);
-  if (L != 0 || U != 0) return "bad-op";
-  if (e == "SquareEngine_ROW_MAJOR") return Ops<SquareEngine<ROW_MAJOR> >::run(w);
-  if (e == "SquareEngine_COL_MAJOR") return Ops<SquareEngine<COL_MAJOR> >::run(w);
-  if (e == "SymmEngine_ROW_LOWER_COL_UPPER") return Ops<SymmEngine<ROW_LOWER_COL_UPPER> >::run(w);
-  if (e == "SymmEngine_ROW_UPPER_COL_LOWER") return Ops<SymmEngine<ROW_UPPER_COL_LOWER> >::run(w);
-  if (e == "LowerEngine_ROW_MAJOR") return Ops<LowerEngine<ROW_MAJOR> >::run(w);
-  if (e == "LowerEngine_COL_MAJOR") return Ops<LowerEngine<COL_MAJOR> >::run(w);
-  if (e == "UpperEngine_ROW_MAJOR") return Ops<UpperEngine<ROW_MAJOR> >::run(w);
-  if (e == "UpperEngine_COL_MAJOR") return Ops<UpperEngine<COL_MAJOR> >::run(w);
+  typedef std::string (*GroupFn)(const std::vector<std::string>&);
+  static const GroupFn groups[12] = {verif_special_group_1, verif_special_group_2, verif_special_group_3, verif_special_group_4,
+                                     verif_special_group_5, verif_special_group_6, verif_special_group_7, verif_special_group_8,
+                                     verif_special_group_9, verif_special_group_10, verif_special_group_11, verif_special_group_12};
+  bool band = e.compare(0, 10, "BandEngine") == 0;
+  if (!band && (L != 0 || U != 0)) return "bad-op";
+  for (int g = band ? 4 : 0; g < (band ? 12 : 4); ++g) {
+    std::string r = groups[g](w);
+    if (!r.empty()) return r;
+  }
   return "bad-op";
 }
 
 int main() {
-  Stack* stack = new Stack();
+  verif::SpyStack* stack = new verif::SpyStack();
+  g_stack = stack;
   std::string line;
   long count = 0;
   while (std::getline(std::cin, line)) {
